@@ -252,6 +252,25 @@ theorem get_returns_unexpired (now : Int) (s : Store) (hnd : NoDupKeys s) (a : A
   rw [List.mem_filter, mem_vals_iff hnd]
   simp only [Bool.not_eq_true', decide_eq_false_iff_not, Int.not_lt]
 
+/-- **get_filter_flags.**  The query flags of GET are three independent exclusions: an alert is listed iff
+    it is not an excluded active one, AND not silenced while `silenced=false`, AND not inhibited while
+    `inhibited=false` — an alert that is both silenced and inhibited is hidden by either flag. -/
+theorem get_filter_flags (f : Flags) (nSil nInh : Nat) :
+    passesFlags f nSil nInh = true ↔
+      (f.active = true ∨ nSil ≠ 0 ∨ nInh ≠ 0) ∧ (f.silenced = true ∨ nSil = 0) ∧ (f.inhibited = true ∨ nInh = 0) := by
+  obtain ⟨a, s, i⟩ := f
+  by_cases h1 : nSil = 0 <;> by_cases h2 : nInh = 0 <;> cases a <;> cases s <;> cases i <;> simp [passesFlags, h1, h2]
+
+theorem get_filter_flags_hides_inhibited (f : Flags) (nSil nInh : Nat) (hf : f.inhibited = false) (hi : nInh ≠ 0) :
+    passesFlags f nSil nInh = false := by
+  have := get_filter_flags f nSil nInh
+  cases h : passesFlags f nSil nInh
+  · rfl
+  · have h' := this.mp h
+    rcases h'.2.2 with h3 | h3
+    · simp [hf] at h3
+    · exact absurd h3 hi
+
 theorem lookup_gc (now : Int) (s : Store) (hnd : NoDupKeys s) (k : Labels) :
     lookup (s.gc now) k =
       match lookup s k with
